@@ -145,7 +145,8 @@ fn build(c: &Case) -> Built {
     let mut file = Vec::new();
     let mut entries = Vec::new();
     let mut seqs = Vec::new();
-    for (r, name) in c.recs.iter().zip(nm) {
+    let last = c.recs.len() - 1;
+    for (ri, (r, name)) in c.recs.iter().zip(nm).enumerate() {
         let w = r.width.max(1);
         file.push(b'>');
         file.extend_from_slice(name.as_bytes());
@@ -164,7 +165,10 @@ fn build(c: &Case) -> Built {
             // `samtools faidx`: LINEBASES 0 and LINEWIDTH 0 for a record without sequence
             if c.samtools_single { (0, 0) } else { (w as u64, w as u64 + term) }
         } else if c.samtools_single && s.len() <= w {
-            (s.len() as u64, s.len() as u64 + term)
+            // samtools measures the first line of the record as it is in the file: for a one-line record that
+            // ends the file without a terminator the line is as wide in bytes as in bases
+            let t = if ri == last && !c.final_newline { 0 } else { term };
+            (s.len() as u64, s.len() as u64 + t)
         } else {
             (w as u64, w as u64 + term)
         };
@@ -727,6 +731,7 @@ pub fn check(c: &Case) -> R {
     pass.add_if(c.recs.iter().any(|r| r.len > 0 && r.len % r.width == 0), "length multiple of line width");
     pass.add_if(c.recs.iter().any(|r| r.len <= r.width), "single-line record");
     pass.add_if(c.samtools_single && c.recs.iter().any(|r| r.len <= r.width), "samtools-style index entry of a single-line record");
+    pass.add_if(c.samtools_single && !c.final_newline && c.recs.last().map_or(false, |r| r.len >= 1 && r.len <= r.width), "samtools-style entry with line_bytes = line_bases (one-line record ending the file without terminator)");
     pass.add_if(c.recs.iter().any(|r| r.width > 512), "line longer than the iterator buffer (512)");
     pass.add_if(c.sched.iter().all(|&s| s <= 3), "schedule of 1..3 byte reads");
     pass.add_if(c.via_index, "Index::new + with_index");
